@@ -236,6 +236,31 @@ fn main()
 			}
 		}
 	}
+	// (2c) audit-C: small fields just outside their range (the biases of (2b) leave the operand type before the field
+	// check is reached): SVC / BKPT / UDF.N with v + 0x100 and v - 0x100, UDF.W with v +- 0x10000, RSBS with a non-zero
+	// immediate (the only accepted one is 0)
+	{
+		use Instruction::*;
+		for info in [0u8, 1, 0x7F, 0x80, 0xFE, 0xFF]
+		{
+			for bias in [0x100i64, -0x100, 0x200, 0xFF00]
+			{
+				for i in [Svc{info}, Bkpt{info}, Udf{info}]
+				{
+					let addr = *rng.pick(&addrs);
+					emit_b!(addr, None, &i, &mut rng, &mut out, bias);
+				}
+			}
+		}
+		for info in [0u16, 1, 0x7FFF, 0x8000, 0xFFFF]
+		{
+			for bias in [0x10000i64, -0x10000, 0x7FFF0000] { let addr = *rng.pick(&addrs); emit_b!(addr, None, &Udfw{info}, &mut rng, &mut out, bias); }
+		}
+		for bias in [1i64, -1, 2, 0xFF, 0x100, 0x7FFFFFFF, -0x80000000]
+		{
+			for (d, l) in [(0u8, 0u8), (7, 1), (1, 7), (8, 0), (0, 13)] { let addr = *rng.pick(&addrs); emit_b!(addr, None, &Rsb{dst: reg(d), lhs: reg(l)}, &mut rng, &mut out, bias); }
+		}
+	}
 	// (3) 32-bit and random (mostly encodable, many just outside) instructions
 	let nrand = if thorough { 600_000 } else { 40_000 };
 	for _ in 0..nrand { let i = random_instr(&mut rng); if is_pcrel(&i) { continue; } let addr = *rng.pick(&addrs); emit!(addr, None, &i, &mut rng, &mut out); }
